@@ -5,8 +5,10 @@ import (
 	"os"
 	"os/exec"
 	"reflect"
+	"runtime"
 	"strings"
 	"sync"
+	"sync/atomic"
 	"time"
 
 	"github.com/fluffle/goirc/state"
@@ -15,7 +17,7 @@ import (
 )
 
 func init() {
-	register("C14", "(a) after random operation histories on a real tracker every value any method returns (nick and channel snapshots, their mode structs, membership maps, privilege structs) is mutated in every field / entry and the tracker's full observation and internal dump must stay the same, and snapshots kept from earlier must equal their deep copies after further tracker operations; (b) a -race build of a stress program (8 goroutines, all 17 methods, callers scribbling over returned values) must finish without a race report; (c) timed concurrent histories (2-4 goroutines x 3-6 operations) must be linearizable w.r.t. the relational Spec (Wing-Gong search in the Lean driver); non-trivial = snapshot with at least one membership / history with overlapping operations; distinct by history", c14)
+	register("C14", "(a) after random operation histories on a real tracker every value any method returns (nick and channel snapshots, their mode structs, membership maps, privilege structs) is mutated in every field / entry and the tracker's full observation and internal dump must stay the same, and snapshots kept from earlier must equal their deep copies after further tracker operations; (b) a -race build of a stress program (8 goroutines, all 17 methods, callers scribbling over returned values) must finish without a race report; (c) timed concurrent histories (2-4 goroutines x 3-6 random operations, and 4-7 goroutines released together each doing one operation that fights over the same fresh nick / channel / membership) must be linearizable w.r.t. the relational Spec (Wing-Gong search in the Lean driver); non-trivial = snapshot with at least one membership / history with overlapping operations; distinct by history", c14)
 }
 
 // scribble mutates everything reachable from a returned value.
@@ -227,28 +229,76 @@ type timedOp struct {
 	retS      string
 }
 
+// linHistory runs the plans concurrently (one goroutine each, released together by a spin barrier) on a fresh
+// tracker after the sequential prefix and returns the timed history as a linearizability case.
+func linHistory(prefix []tkOp, plans [][]tkOp, label string) Case {
+	t := state.NewTracker("me")
+	var hist []timedOp
+	t0 := time.Now()
+	now := func() int64 { return int64(time.Since(t0)) }
+	var mu sync.Mutex
+	run := func(o tkOp) {
+		cl := now()
+		r := applyTk(t, o)
+		rt := now()
+		mu.Lock()
+		hist = append(hist, timedOp{cl, rt, o, r})
+		mu.Unlock()
+	}
+	for _, o := range prefix {
+		run(o)
+	}
+	var wg sync.WaitGroup
+	var ready, goFlag int32
+	for g := range plans {
+		wg.Add(1)
+		go func(g int) {
+			defer wg.Done()
+			atomic.AddInt32(&ready, 1)
+			for atomic.LoadInt32(&goFlag) == 0 {
+			}
+			for _, o := range plans[g] {
+				run(o)
+			}
+		}(g)
+	}
+	for atomic.LoadInt32(&ready) < int32(len(plans)) {
+		runtime.Gosched()
+	}
+	atomic.StoreInt32(&goFlag, 1)
+	wg.Wait()
+	overlap := false
+	var toks, descs []string
+	for a, x := range hist {
+		for b, y := range hist {
+			if a != b && x.call < y.ret && y.call < x.ret {
+				overlap = true
+			}
+		}
+		var args []string
+		for _, s := range x.op.args {
+			args = append(args, drv.H(s))
+		}
+		if x.op.name == "ChannelModes" {
+			args = append(args, drv.L(x.op.list))
+		}
+		toks = append(toks, fmt.Sprintf("%d|%d|%s|%s|%s", x.call, x.ret, x.op.name, strings.Join(args, "/"), x.retS))
+		descs = append(descs, fmt.Sprintf("[%d,%d] %s -> %s", x.call, x.ret, x.op.String(), trunc(x.retS, 40)))
+	}
+	tag := ""
+	if overlap {
+		tag = fmt.Sprintf("%s/threads=%d", label, len(plans))
+	}
+	return Case{Desc: label + " concurrent history: " + trunc(strings.Join(descs, " ; "), 600), Spec: []string{"lin " + drv.H("me") + " " + strings.Join(toks, " ")},
+		Tag: tag, Key: strings.Join(toks, " "), Replay: map[string]interface{}{"op": "concurrent-history", "kind": label, "ops": descs}}
+}
+
 func c14Linearizable(c *Ctx) {
 	nicks := []string{"me", "a", "b"}
 	chans := []string{"#x", "#y"}
+	prefix := []tkOp{{name: "NewChannel", args: []string{"#x"}}, {name: "NewNick", args: []string{"a"}}, {name: "Associate", args: []string{"#x", "me"}}}
 	var cases []Case
 	for i := 0; i < c.Pick(150, 2500); i++ {
-		t := state.NewTracker("me")
-		// a little sequential prefix so that there is state to fight over
-		var hist []timedOp
-		t0 := time.Now()
-		now := func() int64 { return int64(time.Since(t0)) }
-		var mu sync.Mutex
-		run := func(o tkOp) {
-			cl := now()
-			r := applyTk(t, o)
-			rt := now()
-			mu.Lock()
-			hist = append(hist, timedOp{cl, rt, o, r})
-			mu.Unlock()
-		}
-		for _, o := range []tkOp{{name: "NewChannel", args: []string{"#x"}}, {name: "NewNick", args: []string{"a"}}, {name: "Associate", args: []string{"#x", "me"}}} {
-			run(o)
-		}
 		threads := c.R.Range(2, 4)
 		per := c.R.Range(3, 6)
 		plans := make([][]tkOp, threads)
@@ -257,44 +307,32 @@ func c14Linearizable(c *Ctx) {
 				plans[g] = append(plans[g], genTkOp(c.R, nicks, chans))
 			}
 		}
-		var wg sync.WaitGroup
-		start := make(chan struct{})
-		for g := 0; g < threads; g++ {
-			wg.Add(1)
-			go func(g int) {
-				defer wg.Done()
-				<-start
-				for _, o := range plans[g] {
-					run(o)
-				}
-			}(g)
+		cases = append(cases, linHistory(prefix, plans, "overlapping"))
+	}
+	c.RunCases(cases)
+	// contended histories: 4..7 goroutines released together, each doing ONE operation out of a small set that
+	// all fight over the same not-yet-tracked nick / channel / membership: check-then-act windows inside a single
+	// method (a duplicate test and the insertion done in two critical sections) only show here
+	cases = nil
+	fight := [][]tkOp{
+		{{name: "NewNick", args: []string{"z"}}},
+		{{name: "NewChannel", args: []string{"#z"}}},
+		{{name: "Associate", args: []string{"#x", "a"}}},
+		{{name: "ReNick", args: []string{"a", "z"}}, {name: "NewNick", args: []string{"z"}}},
+		{{name: "DelNick", args: []string{"a"}}},
+		{{name: "Dissociate", args: []string{"#x", "me"}}},
+		{{name: "DelChannel", args: []string{"#x"}}},
+		{{name: "NewNick", args: []string{"z"}}, {name: "DelNick", args: []string{"z"}}, {name: "GetNick", args: []string{"z"}}},
+		{{name: "Associate", args: []string{"#x", "a"}}, {name: "Dissociate", args: []string{"#x", "a"}}, {name: "IsOn", args: []string{"#x", "a"}}},
+	}
+	for i := 0; i < c.Pick(1500, 20000); i++ {
+		set := fight[c.R.N(len(fight))]
+		threads := c.R.Range(4, 7)
+		plans := make([][]tkOp, threads)
+		for g := range plans {
+			plans[g] = []tkOp{set[c.R.N(len(set))]}
 		}
-		close(start)
-		wg.Wait()
-		overlap := false
-		var toks, descs []string
-		for a, x := range hist {
-			for b, y := range hist {
-				if a != b && x.call < y.ret && y.call < x.ret {
-					overlap = true
-				}
-			}
-			var args []string
-			for _, s := range x.op.args {
-				args = append(args, drv.H(s))
-			}
-			if x.op.name == "ChannelModes" {
-				args = append(args, drv.L(x.op.list))
-			}
-			toks = append(toks, fmt.Sprintf("%d|%d|%s|%s|%s", x.call, x.ret, x.op.name, strings.Join(args, "/"), x.retS))
-			descs = append(descs, fmt.Sprintf("[%d,%d] %s -> %s", x.call, x.ret, x.op.String(), trunc(x.retS, 40)))
-		}
-		tag := ""
-		if overlap {
-			tag = fmt.Sprintf("overlapping/threads=%d", threads)
-		}
-		cases = append(cases, Case{Desc: "concurrent history: " + trunc(strings.Join(descs, " ; "), 600), Spec: []string{"lin " + drv.H("me") + " " + strings.Join(toks, " ")},
-			Tag: tag, Key: strings.Join(toks, " "), Replay: map[string]interface{}{"op": "concurrent-history", "ops": descs}})
+		cases = append(cases, linHistory(prefix, plans, "contended"))
 	}
 	c.RunCases(cases)
 }
